@@ -118,4 +118,9 @@ Definition chk_verify (mode_c : N) (rs : list rmember) (draws : list (list int))
              then (flag (ops_prefixb (map op_of_rop wops) (weight_ops u64s (length draws))
                          && ops_prefixb (weight_ops u64s 0) (map op_of_rop wops)) 32)%N
              else 0%N in
-  (c_res + c_sc + c_ops + c_w)%N.
+  (* guard order: a batch the consistency checks refuse must be refused BEFORE any transcript is touched
+     (no proof-transcript operation, no weight transcript) *)
+  let c_stage := if consistent then 0%N
+                 else flag (forallb (fun r => match r_ops r with [] => true | _ => false end) rs
+                            && match wops with [] => true | _ => false end) 64 in
+  (c_res + c_sc + c_ops + c_w + c_stage)%N.
